@@ -138,8 +138,15 @@ namespace vh
         xt::xarray<double> make_z(const vj::value& zs)
         {
             auto z = grid_array<G, double>(*grid, 0.0);
-            auto m = zs["m"].as_ints();
             std::string k = zs.get_str("k", "int");
+            if (k == "lit")
+            {
+                // literal values (decimal strings): the extremes of the finite range
+                for (size_t i = 0; i < n; ++i)
+                    z.flat(i) = zs["v"][i].as_double();
+                return z;
+            }
+            auto m = zs["m"].as_ints();
             if (k == "int")
             {
                 int e = static_cast<int>(zs.get_int("e", 0));
